@@ -379,8 +379,9 @@ class Gen:
                 return str((1 << 256) + r.randint(0, 5))
             return str((1 << (8 * UINT_W[t])) + r.choice([0, 1, 1000]))
         if k == 'bv':
+            # (no elements at all means "default construction", which is allowed: keep the length >= 1)
             n = t[1] + r.choice([-1, 1, 2])
-            return self.bits(max(n, 0)) if n != t[1] and n >= 0 else self.bits(t[1] + 1)
+            return self.bits(n) if n != t[1] and n >= 1 else self.bits(t[1] + 1)
         if k == 'bl':
             return self.bits(t[1] + r.choice([1, 2, 9])) if t[1] < 3000 else None
         if k == 'Bv':
@@ -389,7 +390,7 @@ class Gen:
             return self.bytez(t[1] + r.choice([1, 2, 33])) if t[1] < 3000 else None
         if k == 'vec':
             if r.random() < 0.5 or is_basic(t[1]) and t[1] == 'x':
-                n = max(t[2] + r.choice([-1, 1, 2]), 0)
+                n = max(t[2] + r.choice([-1, 1, 2]), 1)
                 if n == t[2]:
                     n += 1
                 return ['s'] + [self.val(t[1], 4) for _ in range(n)]
@@ -433,7 +434,9 @@ class Gen:
         k = kind(t)
         if is_basic(t) or k in ('cont', 'union'):
             return ['views', 'py']
-        out = ['views', 'py', 'args', 'gen', 'tuple']
+        out = ['views', 'py', 'gen', 'tuple']
+        if k in ('vec', 'list') and is_basic(t[1]):
+            out.append('args')     # T(e0, e1, ...): unambiguous only for basic elements
         if k in ('Bv', 'Bl') or (k in ('vec', 'list') and t[1] == 'u8'):
             out += ['bytes', 'hex', 'bytes', 'hex']
         return out
